@@ -20,6 +20,7 @@ Step ==
      ELSE IF e.ev = "Crash" THEN
         /\ MM([tag |-> "MM", i |-> l, ev |-> "Crash", api |-> "", label |-> "Crash", exp |-> "", got |-> "process-died", detail |-> ""])
         /\ UNCHANGED schema
+     ELSE IF e.ev = "J2PV" THEN UNCHANGED schema        \* visitor-state log: validated by Trace_J2PVisitor
      ELSE
         LET o == [i2s |-> FALSE, disallow |-> e.disallow]
             x1 == J2PDoc(e.d, schema.root, schema.msgs, o, FALSE)
